@@ -157,6 +157,7 @@ func runC12(w *mon.Worker) {
 	}
 	for i := 0; i < w.Share(w.Scale(64, 1600)); i++ {
 		w.Case("deque-always-empty", nil, dequeAlwaysEmptyCase)
+		w.Case("deque-front-vs-back", nil, dequeFrontBackCase)
 	}
 	mon.ClearProb()
 }
@@ -688,5 +689,88 @@ func dequeAlwaysEmptyCase(c *mon.Case) {
 	stop.Store(true)
 	checkers.Wait()
 	c.Count("always_empty_checks", checks.Load())
+	c.NonTrivial()
+}
+
+// dequeFrontBackCase: on a list with zero or one element a PushFront races a Push (or a Pop), released together by a
+// spinning barrier, several thousand rounds per case. Whatever the order, PushFront(a) and Push(b) on an empty list leave
+// exactly [a b]; with a Pop in the race nothing is lost or duplicated and the survivors keep front-to-back order.
+func dequeFrontBackCase(c *mon.Case) {
+	r := c.Rng
+	rounds := 2000 + r.IntN(3000)
+	withPop := r.IntN(2) == 0
+	for i := 0; i < rounds && !c.Violated(); i++ {
+		l := linkedlist.NewLinkedList[int]()
+		a, b, x := 3*i+1, 3*i+2, 3*i+3
+		if withPop {
+			l.Push(x)
+		}
+		var ready atomic.Int32
+		var wg sync.WaitGroup
+		var popped int
+		var popOk bool
+		wg.Add(2)
+		go func() {
+			defer wg.Done()
+			ready.Add(1)
+			for ready.Load() < 2 {
+			}
+			l.PushFront(a)
+		}()
+		go func() {
+			defer wg.Done()
+			ready.Add(1)
+			for ready.Load() < 2 {
+			}
+			if withPop {
+				popped, popOk = l.Pop()
+			} else {
+				l.Push(b)
+			}
+		}()
+		wg.Wait()
+		if withPop {
+			l.Push(b)
+		}
+		var rest []int
+		for {
+			v, ok := l.Pop()
+			if !ok {
+				break
+			}
+			rest = append(rest, v)
+			if len(rest) > 8 {
+				break
+			}
+		}
+		var want [][]int
+		if !withPop {
+			want = [][]int{{a, b}}
+		} else if !popOk {
+			c.Violate("conservation", "deque-pop-fails-on-non-empty", "round %d: Pop failed on a list that held %d throughout (a PushFront ran beside it)", i, x)
+			break
+		} else if popped == x {
+			want = [][]int{{a, b}}
+		} else if popped == a {
+			want = [][]int{{x, b}}
+		} else {
+			c.Violate("conservation", "deque-foreign-element", "round %d: Pop returned %d; the list held %d and %d was being pushed to its front", i, popped, x, a)
+			break
+		}
+		ok := false
+		for _, w := range want {
+			if fmt.Sprint(w) == fmt.Sprint(rest) {
+				ok = true
+			}
+		}
+		if !ok {
+			other := fmt.Sprintf("Push(%d) on an empty list", b)
+			if withPop {
+				other = fmt.Sprintf("Pop()=%d on a list holding [%d], then Push(%d)", popped, x, b)
+			}
+			c.Violate("linearizability", "deque-not-linearizable", "round %d: PushFront(%d) beside %s: draining gives %v, every order of the two concurrent calls gives %v", i, a, other, rest, want[0])
+		}
+		c.Count("front_vs_back_rounds", 1)
+	}
 	c.NonTrivial()
 }
